@@ -22,8 +22,14 @@ VERIF = os.path.dirname(os.path.dirname(os.path.dirname(os.path.abspath(__file__
 REPO = os.environ.get("VERIF_REPO", "/repo")
 COQ = os.path.join(VERIF, "coq")
 BUILD = os.path.join(VERIF, "build")
-EVID = os.path.join(VERIF, "evidence")
-REPLAYS = os.path.join(VERIF, "replays")
+# a run against another tree (VERIF_REPO: a scratch worktree with a seeded change) must not overwrite the evidence
+# of /repo itself: its evidence and replays go under build/other-tree/
+if os.environ.get("VERIF_REPO") and os.path.realpath(os.environ["VERIF_REPO"]) != "/repo":
+    EVID = os.path.join(BUILD, "other-tree", "evidence")
+    REPLAYS = os.path.join(BUILD, "other-tree", "replays")
+else:
+    EVID = os.path.join(VERIF, "evidence")
+    REPLAYS = os.path.join(VERIF, "replays")
 NCPU = os.cpu_count() or 4
 
 GUARD = "OVNI_VERIF"
